@@ -18,7 +18,7 @@ CONSTANTS
  KeepSlots = FALSE
  TarUnverified = FALSE
  MTs = {TRUE, FALSE}
- DigestHdrs = {"absent", "echo", "served", "servedother", "garbage"}
+ DigestHdrs = {"absent", "echo", "served"}
  Sts = {"std", "alt"}
  DropKinds = {"ueof", "reset"}
 INIT GInit
